@@ -692,6 +692,47 @@ def r42_writeback_gated(facts):
                                        "and starts training from the next iteration")
         if n_writes == 0:
             c.unk("writeback:%s" % u["def"], loc(u, facts.root(u)), "no `*parameter = ..` store found in update or the functions it calls (parameters replaced in another way)")
+        # the selection looks at the PRESENCE of a gradient only: a Boolean computed from a gradient's values (all zero? small?) would
+        # leave a parameter that holds such a gradient un-stepped and its gradient in place
+        hit = None
+        for nb in bodies:
+            parents = {}
+            root = facts.root(nb)
+            for x in walk(root):
+                for ch in F.kids(x):
+                    if isinstance(ch, dict):
+                        parents[id(ch)] = x
+            for x in walk(root):
+                is_read = x.get("k") == "Call" and (resolved(x) in ("corgi::array::Array::values", "corgi::array::arithmetic::<impl corgi::array::Array>::sum_all")
+                                                    or (resolved(x) or "").startswith("<%s as core::ops::index::Index<" % ARRAY)
+                                                    or (resolved(x) or "").startswith("<%s as core::cmp::PartialEq" % ARRAY))
+                if not is_read or not x["args"]:
+                    continue
+                recv = x["args"][0]
+                if not (_mentions_gradient(facts, recv) or any(y.get("k") in ("VarRef", "UpvarRef") and y["v"] in gvars for y in walk(recv))):
+                    continue
+                # does the value read feed a Boolean?
+                cur = x
+                for _ in range(12):
+                    par = parents.get(id(cur))
+                    if par is None:
+                        break
+                    if par.get("k") == "Block" or par.get("k") in ("Assign", "AssignOp"):
+                        break
+                    if par.get("k") == "Call" and (callee(par) or "").rsplit("::", 1)[-1] in ("extend", "push", "extend_from_slice", "len", "to_vec", "for_each", "zip", "copied", "cloned", "iter", "into_iter", "deref", "collect", "drain"):
+                        if (callee(par) or "").rsplit("::", 1)[-1] in ("extend", "push", "extend_from_slice", "len", "to_vec", "for_each", "collect"):
+                            break
+                        cur = par
+                        continue
+                    if (par.get("ty") or "") == "bool":
+                        hit = hit or (nb, par, x)
+                        break
+                    cur = par
+        if hit:
+            c.bad("selection:%s" % u["def"], loc(hit[0], hit[1]), "a Boolean in update is computed from a gradient's VALUES (`%s`): which parameters are stepped and have their gradient cleared "
+                  "must depend on whether they hold a gradient, not on what it contains (a parameter whose gradient is, say, all zero would keep it)" % show(hit[1])[:70])
+        else:
+            c.ok("selection:%s" % u["def"], loc(u, facts.root(u)), "no Boolean of update is computed from a gradient's values (presence tests only)")
     return c
 
 
